@@ -65,6 +65,11 @@ func MainConcurrent(casesFile, outFile string, goroutines, iters int, canary boo
 			cases = append(cases, &c)
 		}
 	}
+	// Debug(true) traces go to the process-wide os.Stdout by design; it is pointed at the null device
+	// once, before any goroutine starts (cases with DebugQuiet do not capture the trace)
+	if null, err := os.OpenFile(os.DevNull, os.O_WRONLY, 0); err == nil {
+		os.Stdout = null
+	}
 	sum := &ConcSummary{Cases: len(cases), Goroutines: goroutines, GOMAXPROCS: runtime.GOMAXPROCS(0)}
 	// cold start: before anything has run in this process, the goroutines run every case once at
 	// the same time (lazily initialised shared data would be written here); the digests are compared
